@@ -1,5 +1,6 @@
 import Acra.Drv.FTI
+import Acra.Drv.FTI2
 namespace Acra.Drv
-def allCodecs : List Codec := ftiCodecs
-def allFuncs : List Func := ftiFuncs
+def allCodecs : List Codec := ftiCodecs ++ fti2Codecs
+def allFuncs : List Func := ftiFuncs ++ fti2Funcs
 end Acra.Drv
